@@ -54,6 +54,10 @@ class FrameError(Exception):
     pass
 
 
+# standard header / trailer fields: never inside a repeating group, so at most once per frame
+HEADER_ONCE = frozenset(("8", "9", "35", "49", "56", "34", "52", "43", "97", "122", "10"))
+
+
 def parse(data: bytes):
     """Strict parse of exactly one frame. Returns list of (tag:str, value:bytes).
     Raises FrameError with a reason code as first arg."""
@@ -97,6 +101,12 @@ def parse(data: bytes):
     for t, _ in fields[1:-1]:
         if t == "10":
             raise FrameError("checksum_tag_inside_body")
+    once = set()
+    for t, _ in fields:
+        if t in HEADER_ONCE:
+            if t in once:
+                raise FrameError("duplicate_header_tag")
+            once.add(t)
     return fields
 
 
